@@ -57,6 +57,16 @@ def _spec_choices(rng):
     roll = rng.random()
     if roll < 0.12:
         return ['synth', rng.getrandbits(48)]
+    if roll < 0.30:
+        # a mutated but still accepted input: unusual names, characters and values coming from the wire
+        from simverif import wirefault
+        path = rng.choice(paths)
+        seeds = corpus.accepted(path)
+        if seeds:
+            raw = rng.choice(seeds)
+            faults = wirefault.token_faults(rng, raw) if wirefault.is_text(raw) and rng.random() < 0.7 else \
+                wirefault.gen_faults(rng, raw, max_faults=1)
+            return ['mutated', path, raw.hex(), faults]
     if roll < 0.6:
         return ['corpus', rng.choice(paths), rng.randrange(64)]
     if roll < 0.9:
@@ -133,6 +143,13 @@ def _build_synth(seed, permute=False):
 def _build(spec, permute=False):
     if spec[0] == 'synth':
         return _build_synth(spec[1], permute)
+    if spec[0] == 'mutated':
+        from simverif import wire
+        cls = corpus.resolve(spec[1])
+        try:
+            return cls.parse_immutable(wire.apply_faults(bytes.fromhex(spec[2]), spec[3]))[0]
+        except Exception:  # the mutated input is rejected: no subject  # pylint: disable=broad-except
+            return None
     try:
         return c13._build_subject(spec)  # pylint: disable=protected-access
     except (core.HarnessError, core.RunTimeout):
@@ -340,6 +357,21 @@ def _exec_history(doc, res):  # pylint: disable=too-many-branches,too-many-state
             if not _wellformed(res, name, out):
                 continue
             first[idx] = (name, out, obj)
+            # equal objects: the same object built through the constructor with declared (enum) field types
+            typed = None if _volatile(spec) else _typed_rebuild(obj)
+            if typed is not None:
+                try:
+                    same = bool(typed == obj) and bool(obj == typed)
+                except Exception:  # pylint: disable=broad-except
+                    same = False
+                if same and type(typed).__eq__ is not object.__eq__:
+                    res.stats['probe.constructed_equal_object_serialised'] += 1
+                    typed_out = serialise(typed)
+                    if typed_out != out:
+                        which = 'json' if typed_out.get('json') != out.get('json') else 'markdown'
+                        res.violation((PROPERTY, 'equal-objects-differ', name, 'constructed-' + which),
+                                      'equal objects produce identical output',
+                                      'parsed object vs an equal object built through the constructor: %s' % _diff_text(typed_out, out))
             # equal objects: the compose -> parse round trip of this object
             try:
                 composed = bytes(obj.compose())
@@ -406,6 +438,50 @@ def _exec_history(doc, res):  # pylint: disable=too-many-branches,too-many-state
     res.sched_sig = ('history', tuple(names)[:8], doc['encoder'], reordered)
     res.nontrivial = reordered or doc['encoder'] != 'default'
     res.stats['runs.history.' + doc['encoder']] += 1
+
+
+def _enum_of_validator(validator):
+    """The Enum class an attrs validator restricts a field to (in_(Enum) / instance_of(Enum) / optional / and_)."""
+    import enum
+    if validator is None:
+        return None
+    for name in ('options', 'type'):
+        target = getattr(validator, name, None)
+        if isinstance(target, type) and issubclass(target, enum.Enum):
+            return target
+    inner = getattr(validator, 'validator', None)
+    if inner is not None:
+        return _enum_of_validator(inner)
+    for inner in getattr(validator, '_validators', ()) or ():
+        found = _enum_of_validator(inner)
+        if found is not None:
+            return found
+    return None
+
+
+def _typed_rebuild(obj):
+    """An equal object built the way a caller constructs it: through the constructor, with enum members where the
+    class declares an enum-typed field (a parser that leaves the bare integer there produces an object that
+    compares equal but must also serialise identically).  None when nothing can be rebuilt."""
+    import enum
+    if not attr.has(type(obj)):
+        return None
+    kwargs = {}
+    for field in attr.fields(type(obj)):
+        if not field.init:
+            continue
+        value = getattr(obj, field.name)
+        enum_class = _enum_of_validator(field.validator)
+        if enum_class is not None and not isinstance(value, enum.Enum) and not isinstance(value, bool):
+            try:
+                value = enum_class(value)
+            except ValueError:
+                pass
+        kwargs[field.name.lstrip('_')] = value
+    try:
+        return type(obj)(**kwargs)
+    except Exception:  # pylint: disable=broad-except
+        return None
 
 
 def _edit_public_field(obj, skip=0):
@@ -729,7 +805,7 @@ def check(tier, seed):
     coverage = core.coverage_from_batch(
         batch, RULE,
         fault_kinds=('fresh_interpreter_other_hash_seed', 'insertion_order_permuted', 'encoder_switched_between_passes'),
-        probes=('round_trip_twin_serialised', 'edited_object_vs_fresh_equal_object'),
+        probes=('round_trip_twin_serialised', 'edited_object_vs_fresh_equal_object', 'constructed_equal_object_serialised'),
         components={
             'real': ['as_json / as_markdown / json.dumps of every corpus class, factory-built and default-constructed objects',
                      'the monkey-patched json.JSONEncoder.default', 'compose / parse for round-trip twins'],
